@@ -77,14 +77,18 @@ def hCopy (j : Json) : Except String Json := do
   match srcsOpt, dstRel with
   | some [], some _ => return jobj ([("res", Json.str "err"), ("why", "no matches found")] ++ lands)
   | some srcs, some d =>
-    match expectedCopyMulti a src before srcs d hasBase with
+    let reres (t : List C.Node) : Option Path :=
+      let l : List FL.Ent := t.map fun n => ⟨n.path, n.st.isDir, if n.st.isSymlink then some n.st.linkname else none⟩
+      let pc := clean (([47] : Path) ++ a.dst)
+      (FL.resolve l (joinSep ((comps pc).filter (· ≠ [])))).2
+    match expectedCopyMulti a src before srcs d hasBase reres with
     | .err w => return jobj ([("res", Json.str "err"), ("why", toJson w)] ++ lands)
     | .ok tree notif =>
       -- C16: the reference filter of C10 (stateless matcher) on the source tree vs the parent-result walk the copy follows
       let listing := src.map (·.st)
       let cfg : F.Cfg := { inc := a.inc, exc := a.exc }
       let naiveEq := (F.reference cfg listing).map (·.path) == (F.filterWalk true { cfg with prune := false } listing).map (·.path)
-      let base := [("res", Json.str "ok"), ("tree", Json.arr (tree.map nodeJ).toArray), ("notif", Json.arr (notif.map jhex).toArray),
+      let base := [("res", Json.str "ok"), ("tree", Json.arr (tree.map nodeJ).toArray), ("notif", Json.arr (notif.map fun (p, d) => Json.arr #[jhex p, toJson d]).toArray),
                    ("naive_eq", toJson naiveEq)] ++ lands
       match j.getObjVal? "after" with
       | .ok (.arr af) =>
